@@ -28,6 +28,11 @@ def documents():
             mkc("numHeaderLines", "1"), mkc("recordDelimiter", "\\n"), mkc("attributeOrientation", "column")])])]), mkc("numberOfRecords", "3")]),
         mkc("abstract", None, [mkc("para", "some words here")]), mkc("creator", None, [mkc("individualName", None, [mkc("givenName", "g"), mkc("surName", "s")]),
                                                                                        mkc("userId", "u", attributes={"directory": "https://orcid.org"})])])))
+    docs.append(("a dataset with three keyword sets and two creators", lambda: mkc("dataset", None, [
+        mkc("title", "a b c d e f"), mkc("creator", None, [mkc("organizationName", "o"), mkc("userId", "u"), mkc("userId", "v", attributes={"directory": "https://orcid.org"})]),
+        mkc("creator", None, [mkc("individualName", None, [mkc("surName", "s")])]), mkc("abstract", "x " * 25),
+        mkc("keywordSet", None, [mkc("keyword", "k1"), mkc("keyword", "k2")]), mkc("keywordSet", None, [mkc("keyword", "k3")]), mkc("keywordSet", None, [mkc("keyword", "k4"), mkc("keywordThesaurus", "t")]),
+        mkc("coverage", None, [mkc("temporalCoverage")]), mkc("contact", None, [mkc("organizationName", "o")])])))
     return docs
 
 
